@@ -116,6 +116,7 @@ struct GenOpts {
     bool plain_numbers = false;        // numbers that Utils compares robustly (identical or clearly different)
     bool ascii_strings = false;
     int scalar_bias = 50;              // percent chance of a scalar at depth>0
+    int wide_den = 150;                // 1/wide_den of the containers at depth <= 1 get 33+ members
 };
 double gen_number(Rng &r, bool allow_nonfinite, bool plain);
 std::string gen_string(Rng &r, bool valid_utf8, bool ascii_only, size_t maxlen = 12);
